@@ -59,13 +59,13 @@ fn c19_cm_read_03() {
 }
 
 //@ props=C19 tier=quick timeout=1500 mem=16 cap=3
-//@ functions=<Packet as MinimalWritableMessage>::{set_code, add_option, set_payload, set_from_message}, <Packet as MutableWritableMessage>::{payload_mut_with_len, truncate, available_space, mutate_options}, MessageOptionAdapter::next
-//@ bounds=source message: any code byte, option numbers 11 and 60 (concrete) with symbolic values ([a],[b,c]) and ([d]), 2 symbolic payload bytes; new code byte, resize length 0..4 and truncate length 0..5 symbolic
-//@ what=a message copied through set_from_message has the same code, the same options in ascending order and the same payload; set_code / payload_mut_with_len / truncate / mutate_options change exactly the raw state
+//@ functions=<Packet as MinimalWritableMessage>::{set_code, add_option, set_payload, set_from_message}, MessageOptionAdapter::next
+//@ bounds=source message: any code byte, option numbers 11 and 60 (concrete) with symbolic values ([a],[b,c]) and ([d]), 2 symbolic payload bytes
+//@ what=a message copied through set_from_message has the same code, the same options in ascending order and the same payload
 #[kani::proof]
 #[kani::unwind(6)]
 #[kani::stub(core::fmt::write, crate::verif_harness::stub_write)]
-fn c19_cm_write_03() {
+fn c19_cm_copy_03() {
     let (p, code, n1, n2, v, pay) = sample_packet(false);
     // copy through the generic interface
     let mut q = Packet::new();
@@ -86,6 +86,20 @@ fn c19_cm_write_03() {
         total += l.len();
     }
     assert!(total == 3, "C19: copied message has no extra options");
+    kani::cover!(code == 0x45, "a 2.05 message copied");
+    core::mem::forget(p);
+    core::mem::forget(q);
+}
+
+//@ props=C19 tier=quick timeout=1500 mem=16 cap=3
+//@ functions=<Packet as MinimalWritableMessage>::set_code, <Packet as MutableWritableMessage>::{payload_mut_with_len, truncate, available_space, mutate_options}
+//@ bounds=message with option numbers 11 and 60 (concrete), symbolic values ([a],[b,c]) and ([d]), 2 symbolic payload bytes; new code byte, resize length 0..4 and truncate length 0..5 symbolic
+//@ what=set_code / payload_mut_with_len / truncate / mutate_options change exactly the raw state
+#[kani::proof]
+#[kani::unwind(6)]
+#[kani::stub(core::fmt::write, crate::verif_harness::stub_write)]
+fn c19_cm_writers_03() {
+    let (mut q, code, n1, n2, v, pay) = sample_packet(false);
     // writers
     let nc: u8 = kani::any();
     MinimalWritableMessage::set_code(&mut q, MessageClass::from(nc));
@@ -116,6 +130,5 @@ fn c19_cm_write_03() {
     assert!(q.get_first_option(CoapOption::from(n1)).unwrap()[0] == v[0], "C19: mutate_options leaves other values alone");
     kani::cover!(len == 4 && t == 3, "grow then truncate");
     kani::cover!(len == 0, "resize to empty");
-    core::mem::forget(p);
     core::mem::forget(q);
 }
